@@ -47,8 +47,15 @@ type R struct {
 	K int    `json:"k,omitempty"`
 }
 
+// HOp is one step of a history of serialisations on one runtime
+type HOp struct {
+	O string `json:"o"` // m: Object.MarshalJSON through the Go API (result slice retained) | s: JSON.stringify from a script
+	V *V     `json:"v"`
+}
+
 type Case struct {
-	K      string   `json:"k"` // parse | str
+	Ops    []HOp    `json:"ops,omitempty"` // k = hist
+	K      string   `json:"k"`             // parse | str | hist
 	T      []uint16 `json:"t,omitempty"`
 	Origin string   `json:"origin,omitempty"`
 	V      *V       `json:"v,omitempty"`
@@ -549,7 +556,96 @@ func bitsClass(bs string) string {
 	return "fraction"
 }
 
+func errClass(rt *goja.Runtime, err error) int {
+	if ex, ok := err.(*goja.Exception); ok {
+		if te, ok := rt.Get("TypeError").(*goja.Object); ok {
+			if vo, ok := ex.Value().(*goja.Object); ok && rt.InstanceOf(vo, te) {
+				return 1
+			}
+		}
+		return 5
+	}
+	return 6
+}
+
+func bytesObs(b []byte) string { return "(TText " + coqUnits(utf16.Encode([]rune(string(b)))) + ")" }
+
+// runHist: a history of serialisations on ONE runtime.  A MarshalJSON result is kept as the very slice the call
+// returned (a host collecting json.RawMessage values does exactly that) and read again after the whole history;
+// a copy taken right after the call is the other observation.  Steps on values that are not objects use the
+// script path.
+func runHist(c Case) vh.Record {
+	rt := newRT()
+	b := &builder{}
+	var exprs []string
+	for _, op := range c.Ops {
+		exprs = append(exprs, b.build(op.V))
+	}
+	src := b.sb.String() + "var __H=[" + strings.Join(exprs, ",") + "];\n" +
+		"function __hs(i){ return __sobs(function(){ return JSON.stringify(__H[i]); })[0]; }\n0"
+	if _, err := rt.RunString(src); err != nil {
+		panic(fmt.Sprintf("harness script failed: %v\n%s", err, src))
+	}
+	h := rt.Get("__H").(*goja.Object)
+	hs, _ := goja.AssertFunction(rt.Get("__hs"))
+	type kept struct {
+		raw []byte // retained, NOT copied
+		now string
+	}
+	res := make([]kept, len(c.Ops))
+	var steps []string
+	tags := map[string]bool{"hist": true}
+	for i, op := range c.Ops {
+		o, isObj := h.Get(strconv.Itoa(i)).(*goja.Object)
+		if op.O == "m" && isObj {
+			steps = append(steps, "(HMarshal "+coqV(op.V, 0)+")")
+			bs, err := o.MarshalJSON()
+			if err != nil {
+				res[i].now = fmt.Sprintf("(TErr %d%%N)", errClass(rt, err))
+			} else {
+				res[i].raw = bs
+				res[i].now = bytesObs(append([]byte(nil), bs...))
+			}
+			tags["hist:marshal"] = true
+		} else {
+			steps = append(steps, "(HStringify "+coqV(op.V, 0)+")")
+			v, err := hs(goja.Undefined(), rt.ToValue(i))
+			if err != nil {
+				res[i].now = "(TErr 9%N)"
+			} else {
+				res[i].now = v.String()
+			}
+			tags["hist:stringify"] = true
+		}
+	}
+	var obs []string
+	changed := false
+	for i := range c.Ops {
+		later := res[i].now
+		if res[i].raw != nil {
+			later = bytesObs(res[i].raw)
+			if later != res[i].now {
+				changed = true
+			}
+		}
+		obs = append(obs, "("+res[i].now+", "+later+")")
+	}
+	if changed {
+		tags["hist:retained-result-changed"] = true
+	}
+	return vh.Record{
+		Case:       vh.MustJSON(c),
+		Coq:        "CHist " + vh.CoqList(steps) + " " + vh.CoqList(obs),
+		Obs:        short(strings.Join(obs, " ")),
+		Tags:       tagList(tags),
+		Nontrivial: len(c.Ops) >= 2,
+	}
+}
+
 func runCase(c Case) vh.Record {
+	if c.K == "hist" {
+		return runHist(c)
+	}
 	if c.K == "parse" {
 		if c.Origin == "" {
 			c.Origin = "replay"
